@@ -56,6 +56,13 @@ def gen_c06(seed, index):
     prof = {"name": "C06", "lp": ALL_LP, "np": [None, None, "radius", "knn", "lsh", "clusters"],
             "unknown_labels": True}
     rng, g = _gen(seed, index, prof)
+    if index % 10 == 1:
+        # Thompson Sampling with an arm-dependent, non-idempotent binarizer (a reward converted twice changes) under each
+        # neighbourhood policy in turn, and without one
+        np_turn = ["clusters", "radius", "knn", "lsh", None][(index // 10) % 5]
+        rng, g = _gen(seed, index, dict(prof, name="C06t", lp=["thompson"], np=[np_turn], p_binz=1.0))
+        g.binz = [2, 4][(index // 50) % 2]
+        g.cfg["binz"] = g.binz
     n = rng.choice([2, 3, 5, 8, 12, 16])
     d, r, c = g.batch(n)
     n = len(d)
@@ -284,6 +291,20 @@ def cold_first_scenario(rng, g):
 def gen_c09(seed, index):
     prof = {"name": "C09", "lp": ALL_LP, "np": [None, None] + G.NP_KINDS,
             "weights": {"fit": 1, "pfit": 3, "query": 1, "add": 1.5, "rem": 1, "warm": 0.5}, "end_query": False}
+    if index % 10 == 3:
+        # the first arm is never observed; the live bandit predicts; a warm start gives the first arm the state of a later arm
+        # (an exact tie with its source): the prediction must be the first arm from then on
+        kinds = ["ucb", "greedy", "linucb", "ucb", "softmax", "thompson", "lingreedy", "popularity"]
+        rng, g = _gen(seed, index, dict(prof, name="C09w", np=[None], lp=[kinds[(index // 10) % len(kinds)]], n_arms=[2, 3, 4]))
+        if "eps" in g.cfg["lp"]:
+            g.cfg["lp"]["eps"] = 0.0
+        ops = cold_first_scenario(rng, g)
+        g.ops = []
+        g.op_query("pred")
+        ops = [ops[0]] + g.ops + [ops[1]]
+        g.ops = []
+        g.op_query("pexp")
+        return {"cfg": g.cfg, "ops": ops, "queries": g.ops}
     if index % 10 == 7:
         # many arms (more than any block size of 16), only the first few observed and those below zero: every other
         # arm ties exactly at the expectation of a never-observed arm, and the *first* of them must be predicted
@@ -1061,6 +1082,21 @@ def _det_lp(rng, linear_ok=True):
 
 
 def gen_nhood(seed, index, np_kinds, name):
+    if "clusters" in np_kinds and index % 20 == 13:
+        # two well separated groups of rows, fit twice: the second data set puts the same row *positions* into the same
+        # clusters as the first, with other decisions and rewards (nothing keyed by positions may survive the fit)
+        rng = random.Random("%s/%s-same-positions/%s" % (seed, name, index))
+        arms = [1, 2, 3]
+        k = rng.choice([4, 6])
+
+        def data():
+            c = [[float(rng.randint(0, 1)), float(rng.randint(0, 1))] for _ in range(k)] + \
+                [[10.0 + rng.randint(0, 1), 10.0 + rng.randint(0, 1)] for _ in range(k)]
+            return {"d": [rng.choice(arms) for _ in range(2 * k)], "r": [float(rng.choice([0, 1, 2, 5])) for _ in range(2 * k)], "c": c}
+        q = {"op": "pexp", "c": [[0.0, 1.0], [10.0, 11.0]]}
+        cfg = {"lp": _det_lp(rng, linear_ok=False), "np": {"k": "clusters", "n": 2, "mini": index % 40 == 13}, "arms": arms,
+               "seed": rng.randint(0, 10 ** 6), "binz": None, "n_jobs": 1}
+        return {"cfg": cfg, "ops": [dict(data(), op="fit"), dict(q), dict(data(), op="fit"), dict(q), {"op": "pred", "c": q["c"]}]}
     prof = {"name": name, "lp": ["greedy"], "np": np_kinds,
             "weights": {"fit": 1, "pfit": 3, "query": 3, "add": 1, "rem": 0.5, "warm": 0}, "n_ops": (2, 7),
             "unknown_labels": False}
